@@ -150,6 +150,35 @@ class TreeBuilder(ET.TreeBuilder):
         re.VERBOSE,
     )
 
+    def __init__(self, *args, **kwargs):
+        super().__init__(*args, **kwargs)
+        # Tags of the currently open elements, innermost last.  The C-accelerated
+        # ElementTree.TreeBuilder checks neither end tag names nor unclosed elements.
+        self._open_tags: list = []
+
+    def start(self, tag, attrs):
+        elem = super().start(tag, attrs)
+        self._open_tags.append(tag)
+        return elem
+
+    def end(self, tag):
+        if not self._open_tags:
+            raise ParseError(f"End tag </{tag}> without open element")
+        if self._open_tags[-1] != tag:
+            raise ParseError(
+                f"End tag </{tag}> doesn't match open element <{self._open_tags[-1]}>"
+            )
+        self._open_tags.pop()
+        return super().end(tag)
+
+    def close(self):
+        if self._open_tags:
+            raise ParseError(f"Missing end tag for <{self._open_tags[-1]}>")
+        root = super().close()
+        if root is None:
+            raise ParseError("No OFX element found in markup body")
+        return root
+
     def feed(self, data: str) -> None:
         """
         Iterate through all tags matched by regex.
